@@ -141,6 +141,25 @@ CHECKS = {
     design="3/C13", engine="hdeg",
     technique="homogeneity-degree constraint system (two rational unknowns per SSA value) over the mem2reg'd LLVM IR regenerated from the real generated C source, solved by z3 QF_LRA with tracked assertions (Query 1: typing exists; Query 2: negated expected output degrees unsat); failures diagnosed by unsat core + MaxSAT and counted as violations only with a replayable numeric witness on the compiled DLL",
     note="Doubles are read as reals. Helpers are typed from their own bodies; only libm is a rule table. Arrays share one degree per array. Comparisons against non-zero literal thresholds are not exempted: they make the model untypable, which is then decided numerically or excluded. The dispersity loop and Python driver (covered by C01), magnetic kernels, the VALID expression, and three models with non-table units or no C source are outside the claim. Typed models are additionally validated numerically at sample points. Seven known findings (formula-level)."),
+ "C10": dict(
+    text="For all 78 builtin models, within the stated bounds (<=3 dispersed parameters per unit, npts in {0,1,5}, 2-3 q points, one extra key): the five calling "
+         "interfaces (call_kernel/get_mesh, DirectModel, the Iq/Iqxy keyword helpers, SasviewModel incl. multiplicity models, array distributions and hidden "
+         "structure-factor scale/background, and the bumps Experiment wrapper) run on z3 proxies over a recording stub kernel; z3 proves per path that every "
+         "interface hands the kernel identical call details, value vector, cutoff and magnetic flag and returns identical theory terms for every symbolic parameter, "
+         "width, nsigma and cutoff; that _interpret_data selects exactly mask==0 and qmin<=q<=qmax and not isnan(y), in order, for 1-D and 2-D data; and that no "
+         "interface returns normally for a symbolic string key outside the names derived from ModelInfo.",
+    design="3/C10",
+    technique="bounded symbolic execution of the real Python interfaces on z3 proxy values; recording stub kernel; distribution leaves as uninterpreted functions; a z3 String key inside a dict proxy that forks on every lookup; unsat of the negated obligation per explored path; sat models replayed on the real compiled kernels and interfaces",
+    note="Identity of kernel arguments is a sufficient condition for equal intensities; a structural mismatch is reported only if the real intensities differ on replay. Excluded: values outside hard limits, omitted-setting defaults, SESANS, oriented slit data, resolution numerics, rounding. bumps.parameter is a listed stub (bumps is not installed). Trusted: z3, symx, vlib/ifaces.py, vlib/compose.py."),
+ "C14": dict(
+    text="Claimed for the clauses that are identities over the reals: (a) I = scale<F^2>/<V_shell>+bg uses the accumulators call_Fq reports (C01 harness on the 26 "
+         "amplitude models); (b) for the 8 spherically symmetric models the model's own Fq code (IR, special functions uninterpreted) gives F^2 = F1^2 at every q "
+         "(to 1e-12 relative for literal round-off); (c) every 'equivalent (outer) volume sphere' mode satisfies 4/3 pi R^3 = V_form with radius_effective and "
+         "form_volume interpreted from IR (cbrt axiom); (e) <F>^2 <= <F^2> under dispersity follows from the per-point inequality (Cauchy-Schwarz, meshes <= 3). "
+         "Positivity of R_eff and the volumes is attempted as an extended obligation and reported as proved/not proved per mode. The anisotropic Jensen inequality and "
+         "the q->0 limit are outside solver reach and stated as such.",
+    design="3/C14", engine="symx+llsym",
+    technique="symbolic execution of the LLVM IR of each model's Fq/form_volume/shell_volume/radius_effective with library special functions uninterpreted; z3 QF_NRA identities (shared subterms generalised, UF abstracted); C01 harness for the accumulator clause"),
 }
 
 NOT_YET = "check not built yet in this round (planned in DESIGN.md section 3); not claimed"
